@@ -11,7 +11,8 @@ import ScyllaVerif.Drive.C05
 
 ```
 plan[.<tag>] <topology> <strategies> <tablets> <config> <request> <tbl> <samples>
-    topology / strategies : Drive/Topology.lean (peer flags `d` = disabled, `x` = not connected)
+    topology / strategies : Drive/Topology.lean (peer flags `[d][x][s<nr_shards>m<msb>]`: disabled, not connected,
+                            the node's sharder)
     tablets  := "-" | table ("+" table)*          table := ks "." tbl ("@" tablet)*       (tablets in insertion order)
     tablet   := first "_" last "_" ("-" | host "." shard ("," host "." shard)*)
     config / request : Drive/C05.lean;  tbl = index of the table `t<tbl>` in keyspace `k<request.ks>`
@@ -22,7 +23,9 @@ plan[.<tag>] <topology> <strategies> <tablets> <config> <request> <tbl> <samples
   model: prints R / D itself; the part after `|` is CHECKED (every observed first target must be the head of
          `routePlan` for some random choices) and echoed, else `REJECT ..`.
 
-pool <nr> <msb> <S<k>|H<k>> <p|n> <requested shards>        route <nr> <msb> <S<k>|H<k>> <p|n> <tokens>
+pool <nr> <msb> <S<k>|H<k>> <p|n|q> <requested shards>      route <nr> <msb> <S<k>|H<k>> <p|n|q> <tokens>
+    (q: the scripted server reports the NEXT shard for shard-aware-port connections; irrelevant to the model, which
+     is given the pooled shards as the server knows them)
   impl : nr=<n|-> have=<server-side shards of the pooled connections, sorted> | <req>:<got> ..   (route: <tok>:<shard>:<got>)
   model: checks nr, for `route` computes the shard itself (`shardOfImpl` = the target node's sharder), and checks that
          `got` is the reported shard of a connection `connectionForShard` can return for SOME random choices.
@@ -74,6 +77,21 @@ def buildTable (peers : List Node) (ts : List (Int × Int × List (Nat × Nat)))
   (ts.foldl (fun (tbl : Tablets.Table) t =>
     (tbl.addTablet (Tablets.Tablet.fromRaw t.1 t.2.1 t.2.2 (translator peers))).1) Tablets.Table.empty).tablets
 
+/-- Peer flags of C12: `[d][x][s<nr_shards>m<msb_ignore>]`; `none` = malformed, `some none` = a node without shards. -/
+def parseFlags (flags : String) : Option (Option SharderM) :=
+  match flags.splitOn "s" with
+  | [pre] => if pre.all (fun c => c == 'd' || c == 'x') then some none else none
+  | [pre, suf] =>
+    if !pre.all (fun c => c == 'd' || c == 'x') then none else
+    match suf.splitOn "m" with
+    | [nr, msb] =>
+      if nr.isEmpty || msb.isEmpty || !nr.all Char.isDigit || !msb.all Char.isDigit then none else
+      match nr.toNat?, msb.toNat? with
+      | some nr, some msb => if nr = 0 || nr > 65535 || msb ≥ 64 then none else some (some ⟨nr, UInt8.ofNat msb⟩)
+      | _, _ => none
+    | _ => none
+  | _ => none
+
 def mkRCluster (ps : List (Peer × String)) (ks : List Strategy)
     (tables : List ((Nat × Nat) × List (Int × Int × List (Nat × Nat)))) : RCluster :=
   let peers := ps.map (·.1.node)
@@ -81,7 +99,8 @@ def mkRCluster (ps : List (Peer × String)) (ks : List Strategy)
     keyspaces := ks
     disabled := (ps.filter (fun p => p.2.contains 'd')).map (·.1.node.id)
     down := (ps.filter (fun p => p.2.contains 'x')).map (·.1.node.id)
-    sharder := fun _ => none            -- pool-less hook nodes
+    -- `Node::sharder()` of the hook nodes (`verif_hooks::cluster::set_sharders`)
+    sharder := fun id => ((ps.find? (fun p => p.1.node.id == id)).bind (fun p => parseFlags p.2)).join
     peers := peers
     tables := tables.map (fun t => (t.1, buildTable peers t.2)) }
 
@@ -97,6 +116,25 @@ def replicasOf (rc : RCluster) (r : RRequest) (strat : Strategy) (tok : Int) (dc
   | none =>
     let cl := rc.toCluster (some tok)
     ((replicasForToken rc.loc tok strat dc).iter rc.loc).map (fun n => (n, cl.sh n.id))
+
+/-- Is `id:shard` what `Plan::next` can yield for this first target (`firstAttempt` for some shard draw)? -/
+def planObsOk (rc : RCluster) (o : String) (t : Option Target) : Bool :=
+  match t with
+  | none => o == "-"
+  | some t =>
+    match o.splitOn ":" with
+    | [i, sh] =>
+      match i.toNat?, sh.toNat? with
+      | some i, some sh =>
+        i == t.1.id &&
+          (match t.2 with
+           | some _ => (firstAttempt rc [t] 0).map (·.shard) == some sh
+           | none =>
+             -- `draw % nr_shards` ranges over everything below the node's shard count
+             let nr := ((rc.sharder t.1.id).map (·.nr)).getD 1
+             decide (sh < nr) && (firstAttempt rc [t] sh).map (·.shard) == some sh)
+      | _, _ => false
+    | _ => false
 
 def showPlanObs (t : Target) : String := s!"{t.1.id}:{t.2.getD 0}"
 
@@ -129,6 +167,7 @@ def runPlan (topo kss tabs cfg req tbl nSamples impl : String) : String :=
   match parseTopologyEx topo, parseStrategies kss, parseTables tabs, parseConfig cfg, parseRequest req, tbl.toNat?,
       nSamples.toNat? with
   | some ps, some ks, some tables, some cfg, some rq, some tbl, some _ =>
+    if ps.any (fun p => (parseFlags p.2).isNone) then "bad-case" else
     let rc := mkRCluster ps ks tables
     let r : RRequest := ⟨rq, tbl⟩
     let cl := rc.toCluster rq.token
@@ -151,7 +190,7 @@ def runPlan (topo kss tabs cfg req tbl nSamples impl : String) : String :=
       if !(p.startsWith "plan=" && f.startsWith "pf=") then pre ++ " REJECT unparsable" else
       let ps := ((p.drop 5).toString.splitOn ",")
       let fs := ((f.drop 3).toString.splitOn ",")
-      match ps.find? (fun o => !okPlan.contains o), fs.find? (fun o => !okPf.contains o) with
+      match ps.find? (fun o => !firsts.any (planObsOk rc o)), fs.find? (fun o => !okPf.contains o) with
       | some bad, _ => pre ++ s!" REJECT plan-first-target {bad} not-in {" ".intercalate okPlan.eraseDups}"
       | none, some bad => pre ++ s!" REJECT policy-first-target {bad} not-in {" ".intercalate okPf.eraseDups}"
       | none, none => pre ++ " " ++ p ++ " " ++ f
@@ -181,7 +220,7 @@ def parseHave (s : String) : Option (List Nat) :=
 def runPool (route : Bool) (nrS msbS sizeS portS reqS impl : String) : String :=
   match nrS.toNat?, msbS.toNat?, parseSize sizeS, parseIntList reqS with
   | some nr, some msb, some _, some reqs =>
-    if nr = 0 || nr > 64 || msb ≥ 64 || !(portS == "p" || portS == "n") || reqs.isEmpty then "bad-case" else
+    if nr = 0 || nr > 64 || msb ≥ 64 || !(portS == "p" || portS == "n" || portS == "q") || reqs.isEmpty then "bad-case" else
     if route && !reqs.all i64ok then "bad-case" else
     if !route && reqs.any (fun q => decide (q < 0 ∨ q ≥ 4294967296)) then "bad-case" else
     -- the harness gave up: the pool kept changing while it was probed (no observation to judge)
